@@ -183,7 +183,7 @@ def chain_root_tie(ctx, S, sdu, child):
             if B is S:
                 acc = 'true' if k.endswith('::eq') else 'false'
                 return ctx.guard('C12.r4', S, lambda kk, tt, _t=t: tt is _t, acc, child, gname='child chain root vs proven parent')
-            if not k.endswith('::eq'):
+            if not (k.endswith('::eq') or k.endswith('::ne')):
                 continue
             ctx.fn(B)
             rets = [s_.rhs.strip() for blk in B.blocks.values() if not blk.cleanup for s_ in blk.stmts
@@ -193,6 +193,14 @@ def chain_root_tie(ctx, S, sdu, child):
             flows = (t in direct) or any(o_[0] == 'call' and o_[2] == bid for r in rets if r != 'const false'
                                          for o_ in du.origins(r))
             ok = no_true and flows
+            if not ok:
+                # early-return shape: `if a != b || c != d { return false } ... <more tests>`: every return that
+                # is not `const false` is reachable only in worlds where the comparison held
+                from engine.flow import GuardFlow
+                gf = GuardFlow(B, P.cfg(B))
+                acc = 'true' if k.endswith('::eq') else 'false'
+                sinks = ctx.success_sinks(B, failure=('false',))
+                ok = bool(sinks) and all(gf.check_sink(bid, acc, sb, True)[0] for sb, _, _ in sinks)
             ctx.ob('C12.r4', B.name, 'helper returns true only through the chain-root comparison chain', ok, at=t.span,
                    returns=rets)
             if ok:
